@@ -27,7 +27,7 @@ type Case struct {
 }
 
 func genCase(t *rapid.T) Case {
-	shape := rapid.SampledFrom([]string{"random", "walk", "collinear-runs", "closed-loop", "repeats", "zigzag", "tiny"}).Draw(t, "shape")
+	shape := rapid.SampledFrom([]string{"random", "walk", "collinear-runs", "closed-loop", "repeats", "zigzag", "tiny", "damped-zigzag"}).Draw(t, "shape")
 	k := uint(rapid.IntRange(0, 16).Draw(t, "k"))
 	side := int64(1) << k
 	n := rapid.IntRange(0, 200).Draw(t, "n")
@@ -36,6 +36,11 @@ func genCase(t *rapid.T) Case {
 	}
 	if shape == "tiny" {
 		n = rapid.IntRange(0, 4).Draw(t, "ntiny")
+	}
+	if shape == "damped-zigzag" {
+		// the farthest point is always the one right after the chord start: the
+		// interval stack nests as deep as the line is long
+		n = rapid.IntRange(100, 200).Draw(t, "ndeep")
 	}
 	pts := make([][2]int64, 0, n)
 	cur := [2]int64{rapid.Int64Range(-side, side).Draw(t, "x0"), rapid.Int64Range(-side, side).Draw(t, "y0")}
@@ -55,6 +60,12 @@ func genCase(t *rapid.T) Case {
 			if rapid.IntRange(0, 2).Draw(t, "move") == 0 {
 				cur = [2]int64{rapid.Int64Range(-side, side).Draw(t, "x"), rapid.Int64Range(-side, side).Draw(t, "y")}
 			}
+		case "damped-zigzag":
+			amp := int64(n-i) * 4
+			if i%2 == 1 {
+				amp = -amp
+			}
+			cur = [2]int64{int64(i), amp}
 		case "zigzag":
 			cur = [2]int64{cur[0] + 1, int64(i%2) * rapid.Int64Range(0, side).Draw(t, "amp")}
 		case "closed-loop":
